@@ -267,6 +267,7 @@ template <class T, class S> static void crossType (int k)
 {
     typedef typename std::conditional<(sizeof (S) < sizeof (T)), S, T>::type Coarse;
     int mode = k % 3;
+    const std::string tagL = std::string ("S!=T[") + Nm<T>::n + "-matrix," + Nm<S>::n + "-arg]:";
     ++hits["cross-type:" + std::string (Nm<T>::n) + "-matrix/" + Nm<S>::n + "-argument"];
     auto fv = [&] () { return (float) rv<float> (mode); };
     float a3[3] = {fv (), fv (), fv ()}, a2[2] = {fv (), fv ()};
@@ -277,46 +278,63 @@ template <class T, class S> static void crossType (int k)
     Matrix22<T> m2; for (int i = 0; i < 2; ++i) for (int j = 0; j < 2; ++j) m2[i][j] = (T) fv ();
     std::string in = "m=" + sm (m) + " v=" + sv (vT);
     const char* cls = mode == 0 ? "integer-lattice(exact)" : mode == 1 ? "well-scaled" : "graded";
-    auto same44 = [&] (const char* what, const Matrix44<T>& x, const Matrix44<T>& y) { L e = 0; for (int i = 0; i < 4; ++i) for (int j = 0; j < 4; ++j) e = std::max (e, fabsl ((L) x[i][j] - (L) y[i][j])); rec<T> (what, cls, e, 0, in); };
-    auto same33 = [&] (const char* what, const Matrix33<T>& x, const Matrix33<T>& y) { L e = 0; for (int i = 0; i < 3; ++i) for (int j = 0; j < 3; ++j) e = std::max (e, fabsl ((L) x[i][j] - (L) y[i][j])); rec<T> (what, cls, e, 0, in); };
-    auto same22 = [&] (const char* what, const Matrix22<T>& x, const Matrix22<T>& y) { L e = 0; for (int i = 0; i < 2; ++i) for (int j = 0; j < 2; ++j) e = std::max (e, fabsl ((L) x[i][j] - (L) y[i][j])); rec<T> (what, cls, e, 0, in); };
+    auto same44 = [&] (const std::string& what, const Matrix44<T>& x, const Matrix44<T>& y) { L e = 0; for (int i = 0; i < 4; ++i) for (int j = 0; j < 4; ++j) e = std::max (e, fabsl ((L) x[i][j] - (L) y[i][j])); rec<T> (what, cls, e, 0, in); };
+    auto same33 = [&] (const std::string& what, const Matrix33<T>& x, const Matrix33<T>& y) { L e = 0; for (int i = 0; i < 3; ++i) for (int j = 0; j < 3; ++j) e = std::max (e, fabsl ((L) x[i][j] - (L) y[i][j])); rec<T> (what, cls, e, 0, in); };
+    auto same22 = [&] (const std::string& what, const Matrix22<T>& x, const Matrix22<T>& y) { L e = 0; for (int i = 0; i < 2; ++i) for (int j = 0; j < 2; ++j) e = std::max (e, fabsl ((L) x[i][j] - (L) y[i][j])); rec<T> (what, cls, e, 0, in); };
     // linear set* builders: exact agreement with the S = T overload
-    { Matrix44<T> x (m), y (m); x.setScale (vS); y.setScale (vT); same44 ("S!=T:M44.setScale", x, y); }
-    { Matrix44<T> x (m), y (m); x.setTranslation (vS); y.setTranslation (vT); same44 ("S!=T:M44.setTranslation", x, y); }
-    { Matrix44<T> x (m), y (m); x.setShear (vS); y.setShear (vT); same44 ("S!=T:M44.setShear(V3)", x, y); }
-    { Matrix33<T> x (m3), y (m3); x.setScale (wS); y.setScale (wT); same33 ("S!=T:M33.setScale", x, y); }
-    { Matrix33<T> x (m3), y (m3); x.setTranslation (wS); y.setTranslation (wT); same33 ("S!=T:M33.setTranslation", x, y); }
-    { Matrix33<T> x (m3), y (m3); x.setShear (wS); y.setShear (wT); same33 ("S!=T:M33.setShear(V2)", x, y); }
-    { Matrix33<T> x (m3), y (m3); x.setShear ((S) a2[0]); y.setShear ((T) a2[0]); same33 ("S!=T:M33.setShear(S)", x, y); }
-    { Matrix22<T> x (m2), y (m2); x.setScale (wS); y.setScale (wT); same22 ("S!=T:M22.setScale", x, y); }
+    { Matrix44<T> x (m), y (m); x.setScale (vS); y.setScale (vT); same44 (tagL + "M44.setScale", x, y); }
+    { Matrix44<T> x (m), y (m); x.setTranslation (vS); y.setTranslation (vT); same44 (tagL + "M44.setTranslation", x, y); }
+    { Matrix44<T> x (m), y (m); x.setShear (vS); y.setShear (vT); same44 (tagL + "M44.setShear(V3)", x, y); }
+    { Matrix33<T> x (m3), y (m3); x.setScale (wS); y.setScale (wT); same33 (tagL + "M33.setScale", x, y); }
+    { Matrix33<T> x (m3), y (m3); x.setTranslation (wS); y.setTranslation (wT); same33 (tagL + "M33.setTranslation", x, y); }
+    { Matrix33<T> x (m3), y (m3); x.setShear (wS); y.setShear (wT); same33 (tagL + "M33.setShear(V2)", x, y); }
+    { Matrix33<T> x (m3), y (m3); x.setShear ((S) a2[0]); y.setShear ((T) a2[0]); same33 (tagL + "M33.setShear(S)", x, y); }
+    { Matrix22<T> x (m2), y (m2); x.setScale (wS); y.setScale (wT); same22 (tagL + "M22.setScale", x, y); }
     // in-place forms with an S-typed argument = set*·M
     LM ML = toL (m, 4), M3L = toL (m3, 3), M2L = toL (m2, 2);
-    { Matrix44<T> x (m); x.translate (vS); Matrix44<T> s; s.setTranslation (vT); cmpProd<T> ("S!=T:M44.translate=setTranslation*M", mode, x, toL (s, 4), ML, 4, 4, in); }
-    { Matrix44<T> x (m); x.scale (vS); Matrix44<T> s; s.setScale (vT); cmpProd<T> ("S!=T:M44.scale=setScale*M", mode, x, toL (s, 4), ML, 4, 4, in); }
-    { Matrix44<T> x (m); x.shear (vS); Matrix44<T> s; s.setShear (vT); cmpProd<T> ("S!=T:M44.shear(V3)=setShear*M", mode, x, toL (s, 4), ML, 4, 4, in); }
-    { Matrix33<T> x (m3); x.translate (wS); Matrix33<T> s; s.setTranslation (wT); cmpProd<T> ("S!=T:M33.translate=setTranslation*M", mode, x, toL (s, 3), M3L, 3, 4, in); }
-    { Matrix33<T> x (m3); x.scale (wS); Matrix33<T> s; s.setScale (wT); cmpProd<T> ("S!=T:M33.scale=setScale*M", mode, x, toL (s, 3), M3L, 3, 4, in); }
-    { Matrix33<T> x (m3); x.shear (wS); Matrix33<T> s; s.setShear (wT); cmpProd<T> ("S!=T:M33.shear(V2)=setShear*M", mode, x, toL (s, 3), M3L, 3, 4, in); }
-    { Matrix22<T> x (m2); x.scale (wS); Matrix22<T> s; s.setScale (wT); cmpProd<T> ("S!=T:M22.scale=setScale*M", mode, x, toL (s, 2), M2L, 2, 4, in); }
-    // trigonometric builders: documented formula to c·eps of the coarser type
+    { Matrix44<T> x (m); x.translate (vS); Matrix44<T> s; s.setTranslation (vT); cmpProd<T> (tagL + "M44.translate=setTranslation*M", mode, x, toL (s, 4), ML, 4, 4, in); }
+    { Matrix44<T> x (m); x.scale (vS); Matrix44<T> s; s.setScale (vT); cmpProd<T> (tagL + "M44.scale=setScale*M", mode, x, toL (s, 4), ML, 4, 4, in); }
+    { Matrix44<T> x (m); x.shear (vS); Matrix44<T> s; s.setShear (vT); cmpProd<T> (tagL + "M44.shear(V3)=setShear*M", mode, x, toL (s, 4), ML, 4, 4, in); }
+    { Matrix33<T> x (m3); x.translate (wS); Matrix33<T> s; s.setTranslation (wT); cmpProd<T> (tagL + "M33.translate=setTranslation*M", mode, x, toL (s, 3), M3L, 3, 4, in); }
+    { Matrix33<T> x (m3); x.scale (wS); Matrix33<T> s; s.setScale (wT); cmpProd<T> (tagL + "M33.scale=setScale*M", mode, x, toL (s, 3), M3L, 3, 4, in); }
+    { Matrix33<T> x (m3); x.shear (wS); Matrix33<T> s; s.setShear (wT); cmpProd<T> (tagL + "M33.shear(V2)=setShear*M", mode, x, toL (s, 3), M3L, 3, 4, in); }
+    { Matrix22<T> x (m2); x.scale (wS); Matrix22<T> s; s.setScale (wT); cmpProd<T> (tagL + "M22.scale=setScale*M", mode, x, toL (s, 2), M2L, 2, 4, in); }
+    // trigonometric builders.  Axis and angles are drawn at the precision of S (for S = double they are NOT representable in float), so that
+    // a computation carried out at the wrong type is visible:
+    //  (i)  setAxisAngle is specified (ImathMatrix.h) to normalise the axis and evaluate sin / cos and every entry AT S and to convert each
+    //       entry to T on assignment: it must agree EXACTLY with the S = T instantiation at S (validated by extraction / TV / theorems),
+    //       converted entrywise to T.  Catches "unit computed in T", "sin/cos computed in T";
+    //  (ii) entries vs the documented formula evaluated from the S-valued arguments, to c·eps of the coarser type;
+    //  (iii) the in-place rotate vs set*·M for the SAME S-valued angles (the property's clause, at S != T).
     int acl = k % 4;
-    float ang = (float) angle<float> (acl), e3[3] = {(float) angle<float> (acl), (float) angle<float> ((acl + 1) % 4), (float) angle<float> (acl)};
+    const std::string tag = std::string ("S!=T[") + Nm<T>::n + "-matrix," + Nm<S>::n + "-arg]:";
+    S ang = angle<S> (acl);
+    Vec3<S> r (angle<S> (acl), angle<S> ((acl + 1) % 4), angle<S> (acl));
+    std::string inA = in + " angle=" + std::to_string ((double) ang) + " r=" + sv (r);
     {
-        Vec3<S> ax = vS; if (ax.x == 0 && ax.y == 0 && ax.z == 0) ax.x = 1;
-        Matrix44<T> x (m); x.setAxisAngle (ax, (S) ang);
-        cmpEntries<Coarse> ("S!=T:M44.setAxisAngle.entries", ANG[acl], toL (x, 4), axisAngleL (ax.x, ax.y, ax.z, (L) ang), 4, 12, in + " angle=" + std::to_string (ang));
+        Vec3<S> ax ((S) U (-1, 1), (S) U (-1, 1), (S) U (-1, 1));
+        if (mode == 2) ax *= (S) std::ldexp (1.0, I (-8, 8));
+        if (ax.x == 0 && ax.y == 0 && ax.z == 0) ax.x = 1;
+        Matrix44<T> x (m); x.setAxisAngle (ax, ang);
+        Matrix44<S> y; y.setAxisAngle (ax, ang);
+        Matrix44<T> yT; for (int i = 0; i < 4; ++i) for (int j = 0; j < 4; ++j) yT[i][j] = (T) y[i][j];
+        L e = 0; for (int i = 0; i < 4; ++i) for (int j = 0; j < 4; ++j) e = std::max (e, fabsl ((L) x[i][j] - (L) yT[i][j]));
+        rec<T> (tag + "M44.setAxisAngle=T(computed-at-S)", ANG[acl], e, 0, inA + " axis=" + sv (ax));
+        cmpEntries<Coarse> (tag + "M44.setAxisAngle.entries", ANG[acl], toL (x, 4), axisAngleL (ax.x, ax.y, ax.z, (L) ang), 4, 12, inA + " axis=" + sv (ax));
     }
     {
-        Vec3<S> r ((S) e3[0], (S) e3[1], (S) e3[2]);
         Matrix44<T> x (m); x.setEulerAngles (r);
-        cmpEntries<Coarse> ("S!=T:M44.setEulerAngles.entries", ANG[acl], toL (x, 4), eulerL (e3[0], e3[1], e3[2]), 4, 6, in);
+        cmpEntries<Coarse> (tag + "M44.setEulerAngles.entries", ANG[acl], toL (x, 4), eulerL (r.x, r.y, r.z), 4, 6, inA);
         Matrix44<T> y (m); y.rotate (r);
-        cmpProd<Coarse> ("S!=T:M44.rotate=exactEuler*M", mode == 0 ? 1 : mode, y, eulerL (e3[0], e3[1], e3[2]), ML, 4, 16, in, 1);
+        cmpProd<Coarse> (tag + "M44.rotate=exactEuler*M", mode == 0 ? 1 : mode, y, eulerL (r.x, r.y, r.z), ML, 4, 16, inA, 1);
+        // rotate (r) of the identity and setEulerAngles (r) are the same matrix (clause "rotate = setEulerAngles·M", M = 1)
+        Matrix44<T> id; id.rotate (r);
+        cmpEntries<Coarse> (tag + "M44.rotate(identity)=setEulerAngles", ANG[acl], toL (id, 4), toL (x, 4), 4, 8, inA);
     }
-    { Matrix33<T> x (m3); x.setRotation ((S) ang); cmpEntries<Coarse> ("S!=T:M33.setRotation.entries", ANG[acl], toL (x, 3), rotZL ((L) ang), 3, 2, in);
-      Matrix33<T> y (m3); y.rotate ((S) ang); cmpProd<Coarse> ("S!=T:M33.rotate=M*exactRotation", mode == 0 ? 1 : mode, y, M3L, rotZL ((L) ang), 3, 8, in, 2); }
-    { Matrix22<T> x (m2); x.setRotation ((S) ang); cmpEntries<Coarse> ("S!=T:M22.setRotation.entries", ANG[acl], toL (x, 2), rotZL ((L) ang), 2, 2, in);
-      Matrix22<T> y (m2); y.rotate ((S) ang); cmpProd<Coarse> ("S!=T:M22.rotate=M*exactRotation", mode == 0 ? 1 : mode, y, M2L, rotZL ((L) ang), 2, 8, in, 2); }
+    { Matrix33<T> x (m3); x.setRotation (ang); cmpEntries<Coarse> (tag + "M33.setRotation.entries", ANG[acl], toL (x, 3), rotZL ((L) ang), 3, 2, inA);
+      Matrix33<T> y (m3); y.rotate (ang); cmpProd<Coarse> (tag + "M33.rotate=M*exactRotation", mode == 0 ? 1 : mode, y, M3L, rotZL ((L) ang), 3, 8, inA, 2); }
+    { Matrix22<T> x (m2); x.setRotation (ang); cmpEntries<Coarse> (tag + "M22.setRotation.entries", ANG[acl], toL (x, 2), rotZL ((L) ang), 2, 2, inA);
+      Matrix22<T> y (m2); y.rotate (ang); cmpProd<Coarse> (tag + "M22.rotate=M*exactRotation", mode == 0 ? 1 : mode, y, M2L, rotZL ((L) ang), 2, 8, inA, 2); }
 }
 
 // ---------------------------------------------------------------- C: frame builders
@@ -388,6 +406,8 @@ template <class T> static void dirPair (int cls, Vec3<T>& a, Vec3<T>& b, L& sinA
             // nearly opposite: b = -k a + small perpendicular-ish perturbation; angles pi - delta, delta from 1e-1 down to a few eps
             // (the (8 eps)^2 threshold branch of Quat::setRotation with f0 + t0 != 0 is reached at the small end)
             double de = std::is_same<T, float>::value ? U (-6.5, -1) : U (-15, -1);
+            // a third of the pairs in the band where |f0 + t0| is a few eps: both sides of the (8 eps)^2 threshold, f0 + t0 != 0
+            if (I (0, 2) == 0) de = std::is_same<T, float>::value ? U (-7.5, -6) : U (-16.3, -14.8);
             b = a * (T) -U (0.5, 2) + rnd () * (T) std::pow (10.0, de);
         }
     }
@@ -471,6 +491,10 @@ template <class T> static void frames (int k)
         T e8 = 8 * std::numeric_limits<T>::epsilon ();
         const char* arm = (f0 ^ t0) >= 0 ? "acute" : ((f0 + t0).length2 () > e8 * e8 ? "obtuse-split" : "opposite-fallback");
         ++hits[std::string ("rotationMatrix-arm:") + arm];
+        // the threshold branch proper: fallback taken although f0 + t0 != 0 (exactly opposite lattice pairs give f0 + t0 == 0 and would
+        // satisfy an arm count alone) — counted per element type; only class `nearly-opposite` reaches it, at angles pi - few eps
+        const bool thresholdFallback = std::string (arm) == "opposite-fallback" && !isZero (f0 + t0);
+        if (thresholdFallback) ++hits[std::string ("rotationMatrix-arm:opposite-fallback(f0+t0!=0):") + Nm<T>::n];
         // from^ -> to^: the half-way vector h0 = (f0 + t0)^ carries a relative error eps / |f0 + t0|, i.e. the map is conditioned by
         // 1 / |f0 + t0| (documented in ImathQuat.h: "nearly opposite" is the ill-conditioned case); on the fallback arm the result is the
         // exact half-turn from^ -> -from^ at distance |f0 + t0| <= 8 eps from to^ (theorem rotationMatrix_carries)
@@ -478,6 +502,9 @@ template <class T> static void frames (int k)
         // (only the split arm is conditioned by 1 / |f0 + t0|; the fallback arm must stay within 8 eps + rounding, unscaled)
         L condO = (cls == 12 && std::string (arm) == "obtuse-split") ? std::max ((L) 1, 2 / std::max (s2, eps)) : 1;
         rec<T> ("rotationMatrix.from->to", PAIR[cls], distl (vecRow (nrml (vl (a)), toL (m, 4)), nrml (vl (b))) / condO, 32, in);
+        // rotationMatrix_carries, second clause, on floats: on the threshold branch the image of from^ is -from^ (to rounding) …
+        if (thresholdFallback)
+            rec<T> ("rotationMatrix.threshold-fallback.from->-from", PAIR[cls], distl (vecRow (nrml (vl (a)), toL (m, 4)), V{-nrml (vl (a)).x, -nrml (vl (a)).y, -nrml (vl (a)).z}), 8, in);
     }
     if (!degenerate)
     {   // computeLocalFrame (p, xDir = a, normal = b)
